@@ -9,6 +9,7 @@ import (
 	"bytes"
 	"fmt"
 	"io"
+	"net/http"
 	"net/url"
 	"os"
 	"path/filepath"
@@ -226,6 +227,78 @@ func run(r *mon.Run) {
 		r.Distinct("concurrent-writes")
 	}
 
+	// bundle values the writer may well refuse (with an error, or as it does for some, a panic): whatever it agrees to
+	// emit WITHOUT error must still be a well-formed bundle. (Statuses outside 100..999 are left out: they are outside the
+	// property's bundle space, and "three digits" is not among the well-formedness criteria the property lists.)
+	if r.Shard == 0 {
+		mk := func(ver version.Version, us string, mod func(e *bundle.Exchange)) *bundle.Bundle {
+			ok, _ := url.Parse("https://example.com/ok")
+			u, err := url.Parse(us)
+			if err != nil {
+				return nil
+			}
+			e := &bundle.Exchange{Request: bundle.Request{URL: u, Header: http.Header{}}, Response: bundle.Response{Status: 200, Header: http.Header{"Content-Type": {"text/plain"}}, Body: []byte("odd")}}
+			if mod != nil {
+				mod(e)
+			}
+			b := &bundle.Bundle{Version: ver, Exchanges: []*bundle.Exchange{
+				{Request: bundle.Request{URL: ok, Header: http.Header{}}, Response: bundle.Response{Status: 200, Header: http.Header{"Content-Type": {"text/plain"}}, Body: []byte("fine")}}, e}}
+			if ver == version.VersionB1 {
+				b.PrimaryURL = ok
+			}
+			return b
+		}
+		type odd struct {
+			name string
+			url  string
+			mod  func(e *bundle.Exchange)
+		}
+		odds := []odd{
+			{"url-invalid-utf8-query", "https://example.com/search?q=\xff", nil},
+			{"url-invalid-utf8-path", "https://example.com/a\xc3(", nil},
+			{"url-truncated-utf8", "https://example.com/?\xe2\x82", nil},
+			{"url-fragment", "https://example.com/a#frag", nil},
+			{"url-userinfo", "https://user:pw@example.com/a", nil},
+			{"url-empty", "", nil},
+			{"header-value-invalid-utf8", "https://example.com/h1", func(e *bundle.Exchange) { e.Response.Header["X-Bin"] = []string{"\xff\xfe"} }},
+			{"header-value-control", "https://example.com/h2", func(e *bundle.Exchange) { e.Response.Header["X-Ctl"] = []string{"a\x00b\r\nc"} }},
+			{"header-name-non-ascii", "https://example.com/h3", func(e *bundle.Exchange) { e.Response.Header["X-\xc3\xa9"] = []string{"v"} }},
+			{"header-name-invalid-utf8", "https://example.com/h4", func(e *bundle.Exchange) { e.Response.Header["X-\xff"] = []string{"v"} }},
+			{"header-name-empty", "https://example.com/h5", func(e *bundle.Exchange) { e.Response.Header[""] = []string{"v"} }},
+			{"header-name-pseudo", "https://example.com/h6", func(e *bundle.Exchange) { e.Response.Header[":status"] = []string{"404"} }},
+			{"header-nil", "https://example.com/h7", func(e *bundle.Exchange) { e.Response.Header = nil }},
+			{"header-empty-value-list", "https://example.com/h8", func(e *bundle.Exchange) { e.Response.Header["X-None"] = []string{} }},
+			{"body-nil", "https://example.com/b0", func(e *bundle.Exchange) { e.Response.Body = nil }},
+			{"same-url-twice", "https://example.com/ok", nil},
+		}
+		for _, ver := range []version.Version{version.VersionB1, version.VersionB2} {
+			for _, o := range odds {
+				b := mk(ver, o.url, o.mod)
+				if b == nil {
+					r.Eval("odd:not-constructible")
+					continue
+				}
+				w := &gen.RecWriter{}
+				var cnt int64
+				var err error
+				p, pv := r.Call(fmt.Sprintf("odd/%s/%s", ver, o.name), nil, func() { cnt, err = b.WriteTo(w) })
+				outcome := "odd:refused-with-error"
+				switch {
+				case p:
+					outcome = "odd:refused-by-panic"
+					_ = pv
+				case err == nil:
+					outcome = "odd:emitted-well-formed"
+					if verr := rbundle.Validate(w.Buf, string(ver)); verr != nil || cnt != int64(len(w.Buf)) {
+						outcome = "odd:EMITTED-MALFORMED"
+						r.Violation(fmt.Sprintf("wf:odd:%s:%s", ver, o.name), fmt.Sprintf("the writer accepted a %s bundle with %s and emitted, without error, %d bytes (returned count %d) that the independent strict validator rejects: %v", ver, o.name, len(w.Buf), cnt, verr), map[string]any{"output": mon.Short(w.Buf)})
+					}
+				}
+				r.Eval(outcome)
+				r.Distinct(fmt.Sprintf("odd|%s|%s|%s", ver, o.name, outcome))
+			}
+		}
+	}
 	// bundles tuned so that an offset / a length / a section length hits a head boundary exactly
 	if r.Shard == 1%r.NShards {
 		for _, ver := range []version.Version{version.VersionB1, version.VersionB2} {
